@@ -26,7 +26,7 @@ MANIFEST = {
 }
 
 REQUIRED = ["KV.C03.prob_independent_of_table", "KV.C03.forgot_prob_independent_of_table",
-            "KV.C03.trie_mark_loss_harmless", "KV.C03.quant_bin_singleton", "KV.C03.quant_lossless_by_count_partial",
+            "KV.C03.trie_mark_loss_harmless", "KV.C03.quant_bin_singleton", "KV.C03.quant_exact", "KV.C03.quant_equal_multiplicity_lossless",
             "KV.C03.quant_distinct_fails", "KV.C03.quant_backoff_one_bit_overflows", "KV.C03.quant_centre_underflow_witness"]
 
 KEY_QUANT = "quant-distinct-values-but-count-exceeds-bins"
